@@ -295,7 +295,8 @@ func (fr *Frame) frameObligations(st *State, preHeaps map[string]Term, alloc0 Te
 			continue
 		}
 		r := Term{"r!fr", SInt}
-		old := IntCmp("<", fr.top.stamp(r), alloc0)
+		// nil has no storage: writes "to nil" (e.g. the content of a nil map target) are not effects
+		old := And(Not(Eq(r, Nil)), IntCmp("<", fr.top.stamp(r), alloc0))
 		var goal Term
 		if strings.HasPrefix(hn, "M:") {
 			// element memory: per object, per index
